@@ -78,6 +78,7 @@ type forwarder struct {
 	lastMove           int64 // unix nano of the last forwarded byte
 	liveSince          int64 // unix nano since when a carrier forwarding in both directions is connected (0 = none)
 	liveConns          int32
+	usable    int32 // carriers currently forwarding in both directions (not black-holed)
 }
 
 func newForwarder(target string, plan *sessionPlan, res *vlib.Result) (*forwarder, error) {
@@ -144,6 +145,7 @@ func (f *forwarder) serve(c net.Conn, p carrierPlan, idx int) {
 		})
 	}
 	var stalled int32
+	var markStall func()
 	pump := func(dst, src net.Conn, limit int64, counter *int64, dir string) {
 		buf := make([]byte, 16384)
 		var n int64
@@ -175,6 +177,9 @@ func (f *forwarder) serve(c net.Conn, p carrierPlan, idx int) {
 					if p.Kind == "stall" {
 						atomic.StoreInt32(&stalled, 1)
 						atomic.StoreInt64(&f.liveSince, 0)
+						if markStall != nil {
+							markStall()
+						}
 						f.res.Obs("faults_stall", 1)
 						f.noteFault()
 						time.AfterFunc(time.Duration(p.StallMs)*time.Millisecond, func() { cut("") })
@@ -197,6 +202,11 @@ func (f *forwarder) serve(c net.Conn, p carrierPlan, idx int) {
 	if atomic.AddInt32(&f.liveConns, 1) == 1 {
 		atomic.StoreInt64(&f.liveSince, time.Now().UnixNano())
 	}
+	atomic.AddInt32(&f.usable, 1)
+	var unusableOnce sync.Once
+	markUnusable := func() { unusableOnce.Do(func() { atomic.AddInt32(&f.usable, -1) }) }
+	defer markUnusable()
+	markStall = markUnusable
 	defer func() {
 		// any carrier ending restarts the clock: a stall is only judged over a
 		// period in which one and the same carrier set was continuously usable
@@ -683,6 +693,7 @@ func (m *modelClient) run(deadline time.Duration) {
 	defer tick.Stop()
 	var lastProg uint64
 	lastProgAt := time.Now()
+	lastPkts, lastPktAt, usableSecs := 0, time.Now(), 0
 	var werr, rerr error
 	wOK, rOK := false, false
 	for !(wOK && rOK) {
@@ -709,6 +720,23 @@ func (m *modelClient) run(deadline time.Duration) {
 			now := time.Now()
 			if prog != lastProg {
 				lastProg, lastProgAt = prog, now
+			}
+			// rule B: a session that is incomplete has unacknowledged data on one
+			// side, which KCP retransmits at least every 60 s, and every packet
+			// that arrives is acknowledged: with a usable carrier almost all the
+			// time, downstream packets must keep arriving
+			plan.mu.Lock()
+			pk := plan.ownPkts + plan.foreignPkts
+			plan.mu.Unlock()
+			if pk != lastPkts {
+				lastPkts, lastPktAt, usableSecs = pk, now, 0
+			} else if atomic.LoadInt32(&m.f.usable) > 0 {
+				usableSecs++
+			}
+			if now.Sub(lastPktAt) > 200*time.Second && usableSecs >= 190 {
+				m.res.Violate("c05:no-downstream-packet-on-usable-carriers", fmt.Sprintf("session %x: no downstream packet reached the client for %v although a carrier forwarding in both directions was connected during at least %d s of that time and the transfer is incomplete", plan.Tag, now.Sub(lastPktAt).Round(time.Second), usableSecs), map[string]interface{}{"case": fmt.Sprintf("sess/%x", plan.Tag), "plan": planSnapshot(plan)})
+				m.setErr("stalled")
+				return
 			}
 			ls := atomic.LoadInt64(&m.f.liveSince)
 			if ls == 0 {
